@@ -91,6 +91,8 @@ func DecodeSMPP34(data []byte) (sms.PDU, error) {
 		pdu = new(BindResp)
 	case smpp.UNBIND:
 		pdu = new(Unbind)
+	case smpp.UNBIND_RESP:
+		pdu = new(UnBindResp)
 	case smpp.GENERIC_NACK:
 		pdu = new(GenericNack)
 	}
